@@ -405,6 +405,8 @@ type machine struct {
 	hist     []string
 	// freshTips: every new block is stamped close to the virtual now (see nextBlock)
 	freshTips bool
+	// failure recorded by the mid-prune reader hook
+	hookKey, hookFail string
 	// noParentMapping: the copy under inspection is the result of a cancelled (partial) prune and the known
 	// finding kfCancelParentMapping is listed: the hash->number mapping of floor-1 is not required
 	noParentMapping bool
@@ -636,8 +638,10 @@ func (m *machine) store(probe bool) {
 	if m.l1 != nil {
 		m.noteBound(m.l1.BlockNumber, true)
 	}
-	m.s.db.arm(nil)
+	m.s.db.arm(m.midPruneReader(m.s, m.lastF))
 	before, after := m.sendL2(m.s, b.B, &m.lastF)
+	m.s.db.arm(nil)
+	m.raiseHookFailure()
 	m.notePruned(before, after, "L2")
 	if probe && after > before {
 		m.interrupt(pre, func(s *session, base *uint64) { m.sendL2(s, b.B, base) }, fmt.Sprintf("L2 head %d", b.Num()), true)
@@ -694,7 +698,10 @@ func (m *machine) setL1(probe bool) {
 			pre = m.s.db.inner.Copy()
 		}
 	}
+	m.s.db.arm(m.midPruneReader(m.s, m.lastF))
 	before, after := m.sendL1(m.s, h, &m.lastF)
+	m.s.db.arm(nil)
+	m.raiseHookFailure()
 	if eventFirst {
 		write()
 		m.c.Label("l1-event-before-write")
@@ -988,6 +995,57 @@ func (m *machine) compareStateView(where string, s *session, v view, must bool, 
 	} else {
 		m.c.Info("below-floor-state-answered-exact")
 	}
+}
+
+// midPruneReader returns a commit hook that plays a READER racing with the prune: right after each of the
+// first commits of the prune (inside the pruner's goroutine, while the script waits at the barrier) it opens
+// the historical state of the blocks whose history the prune is deleting. Whatever is not refused must be
+// exactly the twin's answer ("the floor is raised before deleting; readers consult it"). Failures are only
+// recorded here (no panics in the service goroutine, no draws) and raised by the script afterwards.
+func (m *machine) midPruneReader(s *session, fBefore uint64) func(k int) {
+	return func(k int) {
+		if k > 3 || m.hookFail != "" || m.ch.Height() == 0 {
+			return
+		}
+		head := m.head()
+		sc := m.fixedScope()
+		for _, n := range []uint64{fBefore - 1, fBefore, fBefore + 1, fBefore + 2, fBefore + 4} {
+			if n > head { // also skips the wrap-around of fBefore-1 at 0
+				continue
+			}
+			v := view{num: n, by: "num"}
+			rp, err := m.openView(s.n, v)
+			if err != nil {
+				m.c.Info("mid-prune-read-refused")
+				continue
+			}
+			rtw, errT := m.openView(m.twin, v)
+			if errT != nil {
+				m.hookKey, m.hookFail = "harness", fmt.Sprintf("twin cannot open state at %d: %v", n, errT)
+				return
+			}
+			gp, gt := readState(m.u, rp, sc), readState(m.u, rtw, sc)
+			for _, key := range sortedKeys(gt) {
+				if gp[key] != gt[key] && !isErr(gp[key]) {
+					m.hookKey = "wrong-state-during-prune"
+					m.hookFail = fmt.Sprintf("reader during the prune (after its commit %d; floor before the prune %d): state by number at block %d: %s = %s but the unpruned twin says %s (must be refused or exact)",
+						k, fBefore, n, key, gp[key], gt[key])
+					return
+				}
+			}
+			m.c.Info("mid-prune-read-answered-exact")
+		}
+	}
+}
+
+func (m *machine) raiseHookFailure() {
+	if m.hookFail == "" {
+		return
+	}
+	if m.hookKey == "harness" {
+		stats.HarnessError("%s", m.hookFail)
+	}
+	m.violation(m.hookKey, "%s", m.hookFail)
 }
 
 func (m *machine) events(n *node.Node, from, to uint64, addr *felt.Felt) ([]string, error) {
